@@ -43,6 +43,10 @@ BUDGET = {
 
 # glibc malloc tuning: falcon allocates/frees ~40 KB pages constantly; with default
 # trimming 16 worker processes spend their time in page faults (8x slowdown measured)
+# thorough tier, thread-placement engine: scripts x (random + PCT) x iterations each
+SHUTTLE_SCRIPTS = {"C08": 8000, "C07": 8000}
+SHUTTLE_ITERS = 50
+
 ENV = dict(os.environ, CARGO_NET_OFFLINE="true", RUST_BACKTRACE="0",
            MALLOC_TRIM_THRESHOLD_="2000000000", MALLOC_MMAP_THRESHOLD_="2000000000",
            MALLOC_TOP_PAD_="268435456")
@@ -91,12 +95,12 @@ def match_known(known, prop, cls, signature):
 
 
 class Worker:
-    def __init__(self, wid, prop, seed, tier, lo, hi, tmp, bindir, extra):
+    def __init__(self, wid, prop, seed, tier, lo, hi, tmp, bindir, extra, engine=None):
         self.wid, self.lo, self.hi = wid, lo, hi
         self.progress = os.path.join(tmp, "progress-%d" % wid)
         self.out = os.path.join(tmp, "out-%d" % wid)
         self.hashes = os.path.join(tmp, "hashes-%d" % wid)
-        cmd = [os.path.join(bindir, ENGINE[prop]), "--prop", prop, "--tier", tier, "--seed", str(seed),
+        cmd = [os.path.join(bindir, engine or ENGINE[prop]), "--prop", prop, "--tier", tier, "--seed", str(seed),
                "--from", str(lo), "--to", str(hi), "--replay-dir", REPLAYS, "--progress", self.progress,
                "--hashes", self.hashes] + extra
         self.cmd = cmd
@@ -113,7 +117,7 @@ class Worker:
             return None
 
 
-def run_workers(prop, seed, tier, total, nworkers, bindir, extra, stall_s):
+def run_workers(prop, seed, tier, total, nworkers, bindir, extra, stall_s, engine=None):
     """Run `total` run indices over `nworkers` processes; returns (summaries, crashes)."""
     tmp = tempfile.mkdtemp(prefix="falcon-sim-", dir=os.path.join(VERIF, "work"))
     per = (total + nworkers - 1) // nworkers
@@ -122,7 +126,7 @@ def run_workers(prop, seed, tier, total, nworkers, bindir, extra, stall_s):
         lo, hi = w * per, min(total, (w + 1) * per)
         if lo >= hi:
             break
-        workers.append(Worker(w, prop, seed, tier, lo, hi, tmp, bindir, extra))
+        workers.append(Worker(w, prop, seed, tier, lo, hi, tmp, bindir, extra, engine))
     crashes = []
     pending = list(workers)
     while pending:
@@ -168,12 +172,12 @@ def run_workers(prop, seed, tier, total, nworkers, bindir, extra, stall_s):
     return summaries, crashes, hashes, tmp
 
 
-def confirm_crash(prop, seed, tier, crash, bindir, extra, stall_s):
+def confirm_crash(prop, seed, tier, crash, bindir, extra, stall_s, engine=None):
     """Re-run the single run index that killed a worker, in isolation."""
     idx = crash["index"]
     if idx is None:
         return None
-    cmd = [os.path.join(bindir, ENGINE[prop]), "--prop", prop, "--tier", tier, "--seed", str(seed),
+    cmd = [os.path.join(bindir, engine or ENGINE[prop]), "--prop", prop, "--tier", tier, "--seed", str(seed),
            "--from", str(idx), "--to", str(idx + 1), "--replay-dir", REPLAYS] + extra
     try:
         p = subprocess.run(cmd, stdout=subprocess.PIPE, stderr=subprocess.STDOUT, env=ENV, timeout=stall_s, text=True)
@@ -190,7 +194,7 @@ def replay_file(path, timeout=600):
         rep = json.load(f)
     prop = rep["property"]
     if rep.get("engine") == "crash":
-        cmd = [os.path.join(BIN, ENGINE[prop]), "--prop", prop, "--tier", rep["tier"], "--seed", str(rep["batch_seed"]),
+        cmd = [os.path.join(BIN, rep.get("binary") or ENGINE[prop]), "--prop", prop, "--tier", rep["tier"], "--seed", str(rep["batch_seed"]),
                "--from", str(rep["index"]), "--to", str(rep["index"] + 1), "--replay-dir", tempfile.gettempdir()] + rep.get("extra", [])
         try:
             p = subprocess.run(cmd, stdout=subprocess.PIPE, stderr=subprocess.STDOUT, env=ENV, timeout=rep.get("stall_s", 60), text=True)
@@ -199,7 +203,8 @@ def replay_file(path, timeout=600):
             return False, "run index %d completed (exit %d)" % (rep["index"], p.returncode)
         except subprocess.TimeoutExpired:
             return True, "run index %d did not terminate within %ss" % (rep["index"], rep.get("stall_s", 60))
-    cmd = [os.path.join(BIN, ENGINE[prop]), "--prop", prop, "--replay", path] + rep.get("extra", [])
+    binary = "cowshuttle" if rep.get("engine") == "shuttle" else ENGINE[prop]
+    cmd = [os.path.join(BIN, binary), "--prop", prop, "--replay", path] + rep.get("extra", [])
     try:
         p = subprocess.run(cmd, stdout=subprocess.PIPE, stderr=subprocess.STDOUT, env=ENV, timeout=timeout, text=True)
     except subprocess.TimeoutExpired:
@@ -249,17 +254,30 @@ def check(prop, tier, seed, nworkers, scale):
     stall_s = 120
     known = load_known()
     summaries, crashes, hashes, tmp = run_workers(prop, seed, tier, total, nworkers, BIN, [], stall_s)
+    for c in crashes:
+        c["engine"], c["extra"] = ENGINE[prop], []
+    shuttle_scripts = 0
+    if tier == "thorough" and prop in SHUTTLE_SCRIPTS:
+        # thread-placement engine: owners on shuttle threads, shuttle's seeded random and PCT
+        # schedulers interleave them at operation boundaries and at the H1 points
+        shuttle_scripts = max(nworkers, int(SHUTTLE_SCRIPTS[prop] * scale))
+        extra = ["--iters", str(SHUTTLE_ITERS)]
+        s2, c2, _, tmp2 = run_workers(prop, seed, tier, shuttle_scripts, nworkers, BIN, extra, 600, engine="cowshuttle")
+        for c in c2:
+            c["engine"], c["extra"] = "cowshuttle", extra
+        summaries += s2
+        crashes += c2
 
     violations = []  # (class, signature, detail, replay)
     for c in crashes:
-        conf = confirm_crash(prop, seed, tier, c, BIN, [], stall_s)
+        conf = confirm_crash(prop, seed, tier, c, BIN, c["extra"], stall_s, engine=c["engine"])
         if conf is None:
             die("worker %d %s at run index %s but the run does not %s in isolation (worker output kept in %s)"
                 % (c["worker"], c["kind"], c["index"], c["kind"], tmp))
         path = os.path.join(REPLAYS, "%s-%d-%d-crash.json" % (prop, seed, c["index"]))
         with open(path, "w") as f:
-            json.dump({"property": prop, "engine": "crash", "class": conf["kind"], "batch_seed": seed, "tier": tier,
-                       "index": c["index"], "stall_s": stall_s, "detail": conf}, f, indent=1)
+            json.dump({"property": prop, "engine": "crash", "binary": c["engine"], "extra": c["extra"], "class": conf["kind"],
+                       "batch_seed": seed, "tier": tier, "index": c["index"], "stall_s": stall_s, "detail": conf}, f, indent=1)
         violations.append({"class": conf["kind"], "signature": "process %s (status %s)" % (conf["kind"], conf["rc"]),
                            "detail": conf["tail"], "replay": path, "index": c["index"]})
         # the rest of the dead worker's slice was not explored: say so
@@ -344,6 +362,8 @@ def check(prop, tier, seed, nworkers, scale):
             "components_real": real,
             "components_stub": stub,
             "workers": nworkers,
+            "shuttle_scripts": shuttle_scripts,
+            "shuttle_schedules_explored": counters.get("shuttle.iterations-random", 0) + counters.get("shuttle.iterations-pct", 0),
             "worker_crashes": len(crashes),
             "violations_new": new_violations,
             "violations_beyond_minimisation_cap": unminimised,
